@@ -8,6 +8,7 @@
   c  C14 double-timeout-error
   d  C14 earlier-page-execution-completes-later-page-fetch
   e  C15 next-page-fetch-has-no-timeout
+  f  C14 timeout-error-after-completion
 Each prints what the user callbacks saw and exits 1 if the defect shows (0 if the tree behaves).
 """
 import os
@@ -204,6 +205,40 @@ def repro_e():
     return hang or n != 2
 
 
+def repro_f():
+    from sim import s1_req as R
+    from cassandra.query import SimpleStatement
+    b = world(3, spec=(0.1, 1), timeout=1.0)
+    seen = []
+    with b.env:
+        w = b.env.world
+        net = b.env.net
+        cluster = b.env.cluster(execution_profiles=b.profiles)
+        session = cluster.connect()
+        w.settle(advance=False)
+        b.plan.set_page(1, 0, ['silent', 'rows'])
+        f = session.execute_async(SimpleStatement(R.uid_query(1), is_idempotent=True))    # query plan: a snapshot of the three hosts
+        f.add_callbacks(*log_to(seen, w))
+        w.advance_to(w.now + 0.2)                 # execution 1 unanswered, speculative execution 2 answered: the request is complete
+        w.settle(advance=False)
+        used = [a['node'] for a in b.plan.arrivals]
+        third = [a for a in net.nodes if a not in used][0]
+        net.nodes[third].up = False               # the third host of the plan goes down after the plan was made
+        for c in net.conns:
+            if str(c.endpoint).startswith(third + ':') and not c.is_closed:
+                net.server_close(c, reset=True)
+        w.advance_to(w.now + 0.1)
+        first = [a for a in b.plan.arrivals if a['action'] == 'silent'][0]
+        w.advance_to(1.5)
+        net.server_close(net.conns[first['conn']], reset=True)    # long after the completion the connection of execution 1 fails
+        w.advance_to(1.6)
+        w.settle(advance=False)
+        cluster.shutdown()
+        w.settle()
+    show("f) request completed by its speculative execution at 0.1 s; at 1.5 s the connection of the unanswered first execution fails (-> retry on the next host, which is down):", seen)
+    return len(seen) != 1
+
+
 def main():
     args = [a for a in sys.argv[1:] if not a.startswith('--')]
     repo = '/repo'
@@ -212,7 +247,7 @@ def main():
         args = [a for a in args if a != repo]
     _setup(repo)
     bad = 0
-    for k in (args or ['a', 'b', 'c', 'd', 'e']):
+    for k in (args or ['a', 'b', 'c', 'd', 'e', 'f']):
         r = globals()['repro_' + k]()
         print("   -> %s" % ("DEFECT SHOWS" if r else "behaves"))
         bad += bool(r)
